@@ -361,6 +361,8 @@ def check_roundtrip(cid, c, res):
                 # put_repeat must be Put x count: same stream as encode_all
                 mm.append(Mismatch("rle-enc:put_repeat-differs-from-put",
                                    "put_repeat stream %s differs from put stream %s for %s" % (rr[1][:80], r[1][:80], vals[:40])))
+                if int(rr[0]) == 0 and rr[1] not in ("-", ""):
+                    ev("L", bytes=unhex_list(rr[1]), **base)      # a different stream: the specification judges it too (C12)
         return mm, events, info
 
     if k == "bp":
